@@ -71,13 +71,14 @@ theorem no_self {G : CGraph} {n1 n2 : Nat} {nd tn : CNode} (P : MergePre G n1 n2
 /-- the merged node decides like the two nodes one after the other -/
 def MergeOK (G : CGraph) (n1 n2 : Nat) (m : CNode) : Prop :=
   ∃ nd tn, MergePre G n1 n2 nd tn ∧ m.id = n1 ∧
-    ∀ env, m.route env = (if nd.route env = n2 then tn.route env else nd.route env)
+    (∀ env, m.route env = (if nd.route env = n2 then tn.route env else nd.route env)) ∧
+    (nd.c.WF → tn.c.WF → m.c.WF)
 
 /-! ### the four shapes -/
 
 theorem shape_and {G n1 n2 nd tn} (P : MergePre G n1 n2 nd tn) (ht : nd.t = n2) (hf : tn.f = nd.f) :
     MergeOK G n1 n2 ⟨n1, .sc false true nd.c tn.c, tn.t, nd.f⟩ := by
-  refine ⟨nd, tn, P, rfl, fun env => ?_⟩
+  refine ⟨nd, tn, P, rfl, fun env => ?_, fun h1 h2 => ⟨h1, h2⟩⟩
   have hns := no_self P
   have : nd.f ≠ n2 := hf ▸ hns.2
   simp only [CNode.route, Cond.eval]
@@ -86,7 +87,7 @@ theorem shape_and {G n1 n2 nd tn} (P : MergePre G n1 n2 nd tn) (ht : nd.t = n2) 
 
 theorem shape_ornot {G n1 n2 nd tn} (P : MergePre G n1 n2 nd tn) (ht : nd.t = n2) (hf : tn.t = nd.f) :
     MergeOK G n1 n2 ⟨n1, .sc true false nd.c tn.c, nd.f, tn.f⟩ := by
-  refine ⟨nd, tn, P, rfl, fun env => ?_⟩
+  refine ⟨nd, tn, P, rfl, fun env => ?_, fun h1 h2 => ⟨h1, h2⟩⟩
   have hns := no_self P
   have : nd.f ≠ n2 := hf ▸ hns.1
   simp only [CNode.route, Cond.eval]
@@ -95,7 +96,7 @@ theorem shape_ornot {G n1 n2 nd tn} (P : MergePre G n1 n2 nd tn) (ht : nd.t = n2
 
 theorem shape_andnot {G n1 n2 nd tn} (P : MergePre G n1 n2 nd tn) (he : nd.f = n2) (hf : tn.f = nd.t) :
     MergeOK G n1 n2 ⟨n1, .sc true true nd.c tn.c, tn.t, nd.t⟩ := by
-  refine ⟨nd, tn, P, rfl, fun env => ?_⟩
+  refine ⟨nd, tn, P, rfl, fun env => ?_, fun h1 h2 => ⟨h1, h2⟩⟩
   have hns := no_self P
   have : nd.t ≠ n2 := hf ▸ hns.2
   simp only [CNode.route, Cond.eval]
@@ -104,7 +105,7 @@ theorem shape_andnot {G n1 n2 nd tn} (P : MergePre G n1 n2 nd tn) (he : nd.f = n
 
 theorem shape_or {G n1 n2 nd tn} (P : MergePre G n1 n2 nd tn) (he : nd.f = n2) (hf : tn.t = nd.t) :
     MergeOK G n1 n2 ⟨n1, .sc false false nd.c tn.c, nd.t, tn.f⟩ := by
-  refine ⟨nd, tn, P, rfl, fun env => ?_⟩
+  refine ⟨nd, tn, P, rfl, fun env => ?_, fun h1 h2 => ⟨h1, h2⟩⟩
   have hns := no_self P
   have : nd.t ≠ n2 := hf ▸ hns.1
   simp only [CNode.route, Cond.eval]
@@ -234,7 +235,7 @@ theorem forward (ok : MergeOK G n1 n2 m) (env : Env) {s e : Nat} (h : Reach G en
     (s ≠ n2 → Reach (G.merged n1 n2 m) env s e) ∧
     (s = n2 → ∀ j, G.next env n2 = some j → Reach (G.merged n1 n2 m) env j e) := by
   have ok' := ok
-  obtain ⟨nd, tn, P, hm, hroute⟩ := ok
+  obtain ⟨nd, tn, P, hm, hroute, -⟩ := ok
   have hn1 : G.next env n1 = some (nd.route env) := next_of_look P.h1
   have hn2 : G.next env n2 = some (tn.route env) := next_of_look P.h2
   have hns := no_self P
@@ -277,7 +278,7 @@ theorem forward (ok : MergeOK G n1 n2 m) (env : Env) {s e : Nat} (h : Reach G en
 theorem backward (ok : MergeOK G n1 n2 m) (env : Env) {s e : Nat} (h : Reach (G.merged n1 n2 m) env s e) :
     s ≠ n2 → Reach G env s e := by
   have ok' := ok
-  obtain ⟨nd, tn, P, hm, hroute⟩ := ok
+  obtain ⟨nd, tn, P, hm, hroute, -⟩ := ok
   have hn1 : G.next env n1 = some (nd.route env) := next_of_look P.h1
   have hn2 : G.next env n2 = some (tn.route env) := next_of_look P.h2
   have hns := no_self P
@@ -457,5 +458,83 @@ theorem reach_det {G : CGraph} {env : Env} {n e e' : Nat} (h : Reach G env n e) 
       rw [hn] at hn'
       cases hn'
       exact ih hr'
+
+end AgVerif.ShortCircuit
+
+namespace AgVerif.ShortCircuit
+
+/-! ### well-formedness of every condition of the graph is kept by merging -/
+
+/-- every conditional node's condition is well formed (boolean operands only tested with ==/!=) -/
+def CGraph.WF (G : CGraph) : Prop := ∀ x ∈ G.nodes, x.c.WF
+
+theorem merged_WF {G : CGraph} {n1 n2 : Nat} {m : CNode} (ok : MergeOK G n1 n2 m) (h : G.WF) :
+    (G.merged n1 n2 m).WF := by
+  obtain ⟨nd, tn, P, _, _, hwf⟩ := ok
+  have hm : m.c.WF := hwf (h _ (look_mem P.h1).1) (h _ (look_mem P.h2).1)
+  intro x hx
+  simp only [CGraph.merged, List.mem_map, List.mem_filter] at hx
+  obtain ⟨y, ⟨hy, _⟩, rfl⟩ := hx
+  split
+  · exact hm
+  · exact h y hy
+
+theorem replay_WF {G G' : CGraph} (tr : List (Nat × Nat)) (h : replayG guardCurrent G tr = some G') (hw : G.WF) :
+    G'.WF := by
+  induction tr generalizing G with
+  | nil => simp only [replayG, Option.some.injEq] at h; subst h; exact hw
+  | cons p tr ih =>
+    obtain ⟨n1, n2⟩ := p
+    simp only [replayG] at h
+    cases hm : mergeAtG guardCurrent G n1 with
+    | none => rw [hm] at h; cases h
+    | some r =>
+      obtain ⟨m2, G1⟩ := r
+      rw [hm] at h
+      simp only at h
+      split at h
+      · obtain ⟨m, ok, hG1, _⟩ := mergeAtG_sound hm
+        exact ih h (hG1 ▸ merged_WF ok hw)
+      · cases h
+
+theorem look_WF {G : CGraph} (h : G.WF) {n : Nat} {x : CNode} (hl : G.look n = some x) : x.c.WF :=
+  h x (look_mem hl).1
+
+/-! ### routing when every node branches as its PRINTED text says -/
+
+/-- one step of control where a conditional node goes to the `true` successor it has after `k n` negate-and-swap
+    steps exactly when the text the writer prints for it (once) is true -/
+def CGraph.nextPrinted (G : CGraph) (k : Nat → Nat) (env : Env) (n : Nat) : Option Nat :=
+  match G.look n with
+  | some x =>
+    let r := writerPrint (k n) x
+    some (if r.2.eval env then r.1.t else r.1.f)
+  | none => G.stmts.lookup n
+
+/-- control started at `n` leaves the graph at `e` when it follows the printed conditions -/
+inductive ReachPrinted (G : CGraph) (k : Nat → Nat) (env : Env) : Nat → Nat → Prop
+  | stop {n} : G.nextPrinted k env n = none → ReachPrinted G k env n n
+  | step {n m e} : G.nextPrinted k env n = some m → ReachPrinted G k env m e → ReachPrinted G k env n e
+
+theorem nextPrinted_eq {G : CGraph} (h : G.WF) (k : Nat → Nat) (env : Env) (n : Nat) :
+    G.nextPrinted k env n = G.next env n := by
+  unfold CGraph.nextPrinted CGraph.next
+  cases hl : G.look n with
+  | none => rfl
+  | some x =>
+    simp only [writerPrint, print_eval env _ _ (Nat.le_refl _) (swaps_WF (k n) x (look_WF h hl))]
+    rw [swaps_route env (k n) x]
+
+theorem reachPrinted_iff {G : CGraph} (h : G.WF) (k : Nat → Nat) (env : Env) (n e : Nat) :
+    ReachPrinted G k env n e ↔ Reach G env n e := by
+  constructor
+  · intro r
+    induction r with
+    | stop hs => exact Reach.stop (by rw [← nextPrinted_eq h k env]; exact hs)
+    | step hn _ ih => exact Reach.step (by rw [← nextPrinted_eq h k env]; exact hn) ih
+  · intro r
+    induction r with
+    | stop hs => exact ReachPrinted.stop (by rw [nextPrinted_eq h k env]; exact hs)
+    | step hn _ ih => exact ReachPrinted.step (by rw [nextPrinted_eq h k env]; exact hn) ih
 
 end AgVerif.ShortCircuit
